@@ -340,7 +340,7 @@ class Reader:
         """
         digital = self.read_sync_digital(_slice)
         analog = self.read_sync_analog(_slice)
-        if analog is not None and floor_percentile:
+        if analog is not None and floor_percentile and analog.size:
             analog -= np.percentile(analog, 10, axis=0)
         if analog is None:
             return digital
